@@ -30,3 +30,9 @@ void w_b_topological_closure(BOX& x) { x.topological_closure_assign(); }
 void w_b_unconstrain(BOX& x, dimension_type v) { x.unconstrain(Variable(v)); }
 void w_b_cc76(BOX& x, const BOX& y, unsigned* tp) { x.CC76_widening_assign(y, tp); }
 }
+/* value semantics of boxes (check C13) */
+extern "C" {
+void w_b_copy(BOX* raw, const BOX& y) { new (raw) BOX(y); }
+void w_b_assign(BOX& x, const BOX& y) { x = y; }
+void w_b_swap(BOX& x, BOX& y) { x.m_swap(y); }
+}
